@@ -245,7 +245,10 @@ def tla_value(v):
     if isinstance(v, dict):
         if not v:
             return "<<>>"
-        return "[" + ", ".join("%s |-> %s" % (k, tla_value(x)) for k, x in v.items()) + "]"
+        import re as _re
+        if all(_re.match(r"^[A-Za-z_][A-Za-z0-9_]*$", k) for k in v):
+            return "[" + ", ".join("%s |-> %s" % (k, tla_value(x)) for k, x in v.items()) + "]"
+        return "(" + " @@ ".join("%s :> %s" % (json.dumps(k), tla_value(x)) for k, x in v.items()) + ")"
     raise ValueError(v)
 
 
